@@ -13,7 +13,7 @@ def run_macro_driver(items):
             f.write(f"{i}\t{kind}\t{' '.join(text.split())}\n")
     if os.path.exists(outp): os.remove(outp)
     e = core.env_offline()
-    e.update({"VERIF_PROGRAMS": inp, "VERIF_OUT": outp, "CARGO_TARGET_DIR": os.path.join(core.VERIF, "harness", "target-macro" + ("" if core.repo_dir() == "/repo" else "-alt"))})
+    e.update({"VERIF_PROGRAMS": inp, "VERIF_OUT": outp, "CARGO_TARGET_DIR": core.target_dir() + "-macro"})
     rc, out = core.run(["cargo", "test", "--offline", "-q", "-p", "ascent_macro", "--features", "verif-hooks", "verif_driver"], cwd=core.repo_dir(), env=e, timeout=3600)
     if rc != 0 or not os.path.exists(outp): return None, out
     res, cur = {}, None
